@@ -196,13 +196,23 @@ def extra(report, env):
                 r = p.parse(text)
                 if r['error'] != '#NUM!' and len(fails) < 5:
                     fails.append({'formula': '%s with es=%r' % (text, items), 'detail': 'an error among the items must be the result, got %r' % (r,)})
-    # SLOPE
-    for _ in range(40):
+    # SLOPE: integer data, and the same data with x (or y) scaled far away from 1 - the definition does not care about units
+    for _i in range(120):
         k = rng.randint(2, 8)
         xs = [rng.randint(-10, 10) for _ in range(k)]
         ys = [rng.randint(-10, 10) for _ in range(k)]
+        sx, sy = ((1, 1), (Fraction(1, 10 ** 6), 1), (10 ** 6, 1), (Fraction(1, 1000), 1000), (1, Fraction(1, 10 ** 6)))[_i % 5 if _i >= 40 else 0]
+        xs = [x * sx for x in xs]
+        ys = [y * sy for y in ys]
         cases += 1
-        r = p.parse('SLOPE(%s)' % ','.join(map(str, ys + xs)).replace('-', '0-'))
+
+        def lit(v):
+            # exact decimal literal of a (possibly negative) decimal fraction; negatives as 0-x (SLOPE takes its numbers as arguments)
+            import decimal
+            d = decimal.Decimal(v.numerator) / decimal.Decimal(v.denominator) if isinstance(v, Fraction) else decimal.Decimal(v)
+            t = format(abs(d), 'f')
+            return ('(0-%s)' % t) if d < 0 else t
+        r = p.parse('SLOPE(%s)' % ','.join(lit(v) for v in ys + xs))
         den = k * sum(x * x for x in xs) - sum(xs) ** 2
         if den == 0:
             ok = r['error'] == '#DIV/0!'
@@ -212,7 +222,7 @@ def extra(report, env):
             fails.append({'formula': 'SLOPE(ys=%r, xs=%r)' % (ys, xs), 'detail': 'got %r' % (r,)})
     bounded(report, 'C11.aggregates', 'seeded lists of length 1..40 (ints and 2-decimal numbers, duplicates) x 14 statistics x {as given, permuted, '
             'regrouped into arguments / nested arrays} against exact Fraction arithmetic; MODE/GEOMEAN/HARMEAN/LARGE; 5 operator criteria + 4 '
-            'text criteria + a two-criteria SUMIFS + three 2..3-criteria *IFS calls (criterion texts repeated) per list; error items at every position among zeros; 40 SLOPE cases', cases, fails)
+            'text criteria + a two-criteria SUMIFS + three 2..3-criteria *IFS calls (criterion texts repeated) per list; error items at every position among zeros; 120 SLOPE cases (x or y scaled by 1e-6 .. 1e6)', cases, fails)
 
 
 def replay(rp):
